@@ -24,6 +24,14 @@ def gen_tokens(rng):
         elif x < 0.6: toks.append(rng.choice(["y7,100;", "y10,%d;" % rng.randint(0, 127), "V(90)", "EP(%d)" % rng.randint(0, 127), "@%d;" % rng.randint(1, 128), "Tempo(%d)" % rng.randint(60, 200), "P(64)"]))
         elif x < 0.7: toks.append(rng.choice(["INT A=3;", "INT B=A+1;", "PRINT(A);", "A=A+1;", "IF(A>2){ c }", "FOR(INT I=0;I<2;I++){ d }", "TIME(2:1:0)", "KeyShift(1)", "FUNCTION FZ(){ e }", "FZ()", "FZ();", "FUNCTION FZ(){ e }"]))
         elif x < 0.8: toks.append(rng.choice(["#M={c d}", "#M", "STR S2={e f};", "S2", "Sub{c e}", "[2 c d]", "{c d e}4", "'ceg'2"]))
+        if rng.random() < 0.06:
+            # a ramp command with an expression-valued argument closed by the next separator, followed by the one-character velocity commands
+            toks.append(rng.choice(["Cresc=2", "Decresc=3", "Cresc=%d" % rng.randint(1, 4)]) + "\0" if rng.random() < 0.5 else rng.choice(["Cresc=2;", "Decresc=3;"]))
+            toks.append(rng.choice([")", "(", ") c", "( d"]))
+        if rng.random() < 0.06:
+            # a command that may be written without any argument, followed by a one-character command that looks like the start of one
+            toks.append(rng.choice(["Cresc", "Decresc", "CRESC", "TrackSync", "ResetGM;", "PlayFromHere"]))
+            toks.append(rng.choice(["(", "( c", "(d", "=" if False else "( e f"]))
         elif x < 0.9: toks.append(rng.choice(["c", "d8", "r4", "l8", "o5", "v100", "q90", ">", "<", "n60,4", "g2^8", "c#", "f#8", "d#", "a#4"]))     # a written sharp before the next separator
         else:
             # an expression-valued argument closed by nothing but the line break (marked with a trailing NUL), often followed by a command
